@@ -383,7 +383,9 @@ def run(ctx):
     stats = []
     N_CALLS, N_Q = 500, 400
     cfgs = [(DepolarizingErrorModel(), 0.3), (BitFlipErrorModel(), 0.1), (BiasedDepolarizingErrorModel(10.0, 'Z'), 0.4),
-            (BiasedYXErrorModel(3.0), 0.2), (CenterSliceErrorModel((1, 2, 0), -0.5), 0.5), (PhaseFlipErrorModel(), 0.9)]
+            (BiasedYXErrorModel(3.0), 0.2), (CenterSliceErrorModel((1, 2, 0), -0.5), 0.5), (PhaseFlipErrorModel(), 0.9),
+            # low rates on many qubits (Pr(I) > 0.9, n > 256): the regime of sparse-sampling shortcuts
+            (DepolarizingErrorModel(), 0.099), (BitFlipErrorModel(), 0.099)]
     if not ctx.quick:
         cfgs += [(BitPhaseFlipErrorModel(), 0.5), (BiasedDepolarizingErrorModel(0.5, 'X'), 0.05),
                  (CenterSliceErrorModel((0, 0, 1), 1.0), 0.7), (BiasedYXErrorModel(0.0), 0.35), (DepolarizingErrorModel(), 0.75)]
